@@ -420,7 +420,13 @@ func parent(ck *Check, tier string, seed int64, verifDir string, workers int, bu
 		}
 	}
 	exit := 0
-	replayDir := filepath.Join(verifDir, "replays")
+	// VERIF_SCRATCH redirects evidence and replay artefacts (background timing runs must not touch
+	// the committed evidence)
+	outDir := verifDir
+	if d := os.Getenv("VERIF_SCRATCH"); d != "" {
+		outDir = d
+	}
+	replayDir := filepath.Join(outDir, "replays")
 	printed := 0
 	for _, v := range unknown {
 		os.MkdirAll(replayDir, 0o755)
@@ -500,9 +506,9 @@ func parent(ck *Check, tier string, seed int64, verifDir string, workers int, bu
 		"wall_s":      wall,
 		"violations":  len(unknown),
 	}
-	os.MkdirAll(filepath.Join(verifDir, "evidence"), 0o755)
+	os.MkdirAll(filepath.Join(outDir, "evidence"), 0o755)
 	b, _ := json.MarshalIndent(ev, "", " ")
-	if err := os.WriteFile(filepath.Join(verifDir, "evidence", ck.ID+".json"), b, 0o644); err != nil {
+	if err := os.WriteFile(filepath.Join(outDir, "evidence", ck.ID+".json"), b, 0o644); err != nil {
 		machinery = append(machinery, err.Error())
 	}
 	fmt.Printf("%s %s: evaluations=%d nontrivial=%d states=%d transitions=%d outcomes=%d violations=%d (unlisted %d) exhaustive=%v wall=%.1fs\n",
